@@ -538,10 +538,22 @@ def pair_scan(crate, inner_closure):
     prog = crate.prog
     f = prog.fns[inner_closure]
     parent = f.get("parent")
-    if parent is None or prog.fns[parent]["kind"] != "Closure":
+    if parent is None:
         return False
     pan = crate.an(parent)
+    # form 3: all() over the pair stream (0..N).flat_map(|u| (u + 1..N).map(move |v| (u, v)))
+    for ev in pan.events:
+        if ev["k"] == "call" and ev["key"] == "core::iter::traits::iterator::Iterator::all" and len(ev["args"]) == 2 \
+                and ev["args"][1][0] == "agg" and ev["args"][1][2] == inner_closure:
+            d = ev["args"][0]
+            if d[0] == "addr":
+                d = crate.fx(parent).iter_desc(ev)
+            if d and d != "CYCLE" and _pair_stream_over_all(crate, pan, d):
+                return True
+    if prog.fns[parent]["kind"] != "Closure":
+        return False
     inner_ok = False
+    lower = False
     N1 = None
     for ev in pan.events:
         if ev["k"] == "call" and ev["key"] == "core::iter::traits::iterator::Iterator::all" and len(ev["args"]) == 2 \
@@ -552,7 +564,23 @@ def pair_scan(crate, inner_closure):
                 if xy and ("arg", 2) in xy and ("const", "usize", 1) in xy:
                     inner_ok = True
                     N1 = d[3][1]
+                elif d[3][0] == ("const", "usize", 0) and d[3][1] == ("arg", 2):
+                    # lower triangle: v in 0..u
+                    inner_ok = True
+                    lower = True
     if not inner_ok:
+        return False
+    if lower:
+        gp = prog.fns[parent].get("parent")
+        if gp is None:
+            return False
+        for ev in crate.an(gp).events:
+            if ev["k"] == "call" and ev["key"] == "core::iter::traits::iterator::Iterator::all" and len(ev["args"]) == 2 \
+                    and ev["args"][1][0] == "agg" and ev["args"][1][2] == parent:
+                d = crate.fx(gp).iter_desc(ev)
+                if d and d[0] == "agg" and d[1] == "adt" and d[2][0].endswith("ops::range::Range") and \
+                        d[3][0] in (("const", "usize", 0), ("const", "usize", 1)) and _is_order_term(d[3][1]):
+                    return True
         return False
     gp = prog.fns[parent].get("parent")
     if gp is None:
@@ -712,3 +740,40 @@ def _touches_fields(an, prefixes):
             elif isinstance(v, tuple) and walk(v):
                 return True
     return False
+
+
+def _is_order_term(t):
+    """order() of the receiver, its `order` field, or the length of its row vector"""
+    if t[0] == "call" and t[1] in ("graaf::op::order::Order::order", "graaf::op::contiguous_order::ContiguousOrder::contiguous_order"):
+        return True
+    if t[0] == "mem" and isinstance(t[1], str) and (t[1].endswith(".order") or t[1].endswith(".order*")):
+        return True
+    if t[0] == "len" and t[1][0] == "at" and ".arcs" in t[1][1]:
+        return True
+    return False
+
+
+def _pair_stream_over_all(crate, pan, d):
+    """d is (0..N).flat_map(|u| (u + 1..N).map(move |v| (u, v))) with N the order, seen from the body pan"""
+    from .rules2 import _flat_pair_stream
+    from .closures import capture_map
+    if not _flat_pair_stream(crate, d):
+        return False
+    src, cl = d[3]
+    if src[3][0] != ("const", "usize", 0):
+        return False
+    N = src[3][1]
+    if not _is_order_term(N):
+        # a local `let order = self.order()`
+        if not (N[0] == "mem" and N[3] is None):
+            return False
+        vals = [v for (var, ver), v in pan.term_of.items() if var == N[1] and v[0] != "opq"]
+        if not (len(vals) == 1 and _is_order_term(vals[0])):
+            return False
+    an1 = crate.an(cl[2])
+    r1 = [e for e in an1.events if e["k"] == "return"][0]["val"]
+    hi = r1[3][0][3][1]
+    cm = capture_map(crate, an1)
+    if cm is None:
+        return False
+    return hi in cm.tr_all(N) or any(cv == hi and (pv == N) for pv, cv in cm.valmap)
